@@ -247,7 +247,7 @@ CHECKS['C19'] = dict(
          'a bounded differential stand-in over generated file sets - not counted as proved.',
     note='trusted: casefold uninterpreted, os.path.normpath uninterpreted (identity on the names of the property), zipfile and VPK I/O, pyvc; for names differing only in case the backends '
          'may keep different candidates (container order) - accepted; backslash spellings on a real directory are host '
-         'dependent and not required.')
+         'dependent and not required. One known finding (chain walk of a member whose prefix differs in case or slash from its stored names lists ../ names).')
 CHECKS['C06'] = dict(
     category='other',
     technique='contract-style AST obligations over every export/parse pair of vmf.py (type-directed escaping obligation, '
